@@ -94,7 +94,9 @@ func topicInit(t *Topic, join *ClientComMessage, h *Hub) {
 		}
 		if len(t.exit) > 0 {
 			msg := <-t.exit
-			msg.done <- true
+			if msg.done != nil {
+				msg.done <- true
+			}
 		}
 
 		return
